@@ -1,6 +1,7 @@
 package main
 
 import (
+	"sync/atomic"
 	"encoding/json"
 	"fmt"
 	"net"
@@ -50,10 +51,29 @@ func c43Eval(c pktcls.Cond, l gopacket.Layer) (res bool, panicked any, stack str
 
 // c43Case parses expr, judges it on the packets, prints, re-parses, and judges
 // again. Returns false if the expression could not be built.
+var c43Rejected atomic.Int64
+
 func c43Case(r *mon.Run, cond *gwCond, expr string, pkts []*gwPkt, sample bool) {
 	kinds := gwKinds(cond)
 	var c1 pktcls.Cond
 	var err error
+	// A class with an unusable value was submitted before (and refused): what
+	// the parser did with it must leave no trace in the next, valid class.
+	if n := c43Rejected.Add(1); n%4 == 0 {
+		bad := []string{"protocol=FOO", "src=10.0.0.0/33", "srcport=65536", "tos=0x100", "dscp=0x40", "all(dst=1.2.3.4/40,protocol=udp)",
+			"any(protocol=tcp,dstport=70000)", "not(src=300.0.0.1/8)"}[int(n/4)%8]
+		var berr error
+		if n%8 == 0 {
+			if p, stack := mon.Try(func() { berr = pktcls.ValidateTrafficClass(bad) }); p != nil {
+				r.Violation("C43:panic:"+mon.PanicSite(stack), fmt.Sprintf("ValidateTrafficClass(%q) panicked: %v", bad, p), c43Witness{Expr: bad})
+			}
+		} else if p, stack := mon.Try(func() { _, berr = pktcls.BuildClassTree(bad) }); p != nil {
+			r.Violation("C43:panic:"+mon.PanicSite(stack), fmt.Sprintf("BuildClassTree(%q) panicked: %v", bad, p), c43Witness{Expr: bad})
+		}
+		if berr != nil {
+			r.Event("class_rejected_before_valid")
+		}
+	}
 	if p, stack := mon.Try(func() { c1, err = pktcls.BuildClassTree(expr) }); p != nil {
 		r.Violation("C43:panic:"+mon.PanicSite(stack), fmt.Sprintf("BuildClassTree(%q) panicked: %v", expr, p), c43Witness{Expr: expr})
 		return
@@ -280,7 +300,7 @@ func checkC43(r *mon.Run) {
 		}
 	}
 	c43ConcurrentPhase(r)
-	r.Require(int64(nExpr)*10, 200, "eval_true", "eval_false", "print_parse", "api_eval", "concurrent_eval")
+	r.Require(int64(nExpr)*10, 200, "eval_true", "eval_false", "print_parse", "api_eval", "concurrent_eval", "class_rejected_before_valid")
 }
 
 // c43BuildAPI constructs the expression through pktcls's exported types.
